@@ -55,6 +55,9 @@ def cases(tier):
             if len(t) <= 34:
                 tset |= corpus.ws_control_variants(t, 1)
         ts = sorted(tset, key=lambda s: (len(s), s))
+    # tokens that span 2..4 template slices (also at source offset 0), templated whitespace, nesting
+    extra = set(corpus.span_templates(4)) | set(corpus.nested_templates(full=(tier != "quick")))
+    ts = sorted(set(ts) | extra, key=lambda s: (len(s), s))
     for grp in range(0, len(ts), 16):
         out.append({"k": "jinja", "ts": ts[grp : grp + 16]})
     kp = 3 if tier == "quick" else 4
@@ -180,11 +183,47 @@ def _lex_one(lnt, text, templated, kind, extra, res):
             if x.is_type("whitespace")
         ]
         split_ws = templated and len(ws_slices) != len(set(ws_slices))
+        # structural features of this execution, used only to tell known call sites apart
+        nonlit = [(rs.source_idx, rs.source_idx + len(rs.raw)) for rs in tf.raw_sliced if rs.slice_type != "literal"]
+        spanning = False
+        for x in toks:
+            if x.is_meta:
+                continue
+            ss = x.pos_marker.source_slice
+            lo, hi = min(ss.start, ss.stop), max(ss.start, ss.stop)
+            if any(lo <= a and b <= hi and (lo, hi) != (a, b) and b > a for a, b in nonlit):
+                spanning = True
+                break
+            # the same in templated space (also sees a token that spans two loop iterations): the token
+            # strictly contains the position of a zero-width non-literal slice, or overlaps >= 2 slices
+            ts_ = x.pos_marker.templated_slice
+            touched = 0
+            for s in tf.sliced_file:
+                a, b = s.templated_slice.start, s.templated_slice.stop
+                if a == b:
+                    if ts_.start < a < ts_.stop:
+                        touched = 2
+                        break
+                elif a < ts_.stop and ts_.start < b:
+                    touched += 1
+            if touched >= 2:
+                spanning = True
+                break
+        unreached_nested = False
+        if templated and vi > 0:
+            from vf.props.tplfam import if_inside_for
 
-        def add2(clause, features, detail, _add=add, _sw=split_ws):
-            if clause in ("tmpl_contig", "uncovered", "src_bounds", "src_inverted", "src_order") and _sw:
+            unreached_nested = if_inside_for(tf)
+
+        def add2(clause, features, detail, _add=add, _sw=split_ws, _sp=spanning, _un=unreached_nested):
+            if clause in ("tmpl_contig", "uncovered", "src_bounds", "src_inverted", "src_order"):
                 features = dict(features)
-                features["tuple_has_split_whitespace"] = True
+                if _sw:
+                    features["tuple_has_split_whitespace"] = True
+                if _sp and clause in ("tmpl_contig", "src_order"):
+                    features["tuple_has_token_spanning_nonliteral"] = True
+                if _un:
+                    features["unreached_variant_with_if_inside_for"] = True
             _add(clause, features, detail)
 
         check_tokens(tf, toks, errs, templated, res["fails"], add2)
